@@ -45,7 +45,8 @@ def h_quantify(ctx):
     tu = w.term(u)
     ex = ctx.fn(fol.Context.exist)
     fa = ctx.fn(fol.Context.forall)
-    forms = (set, list, tuple, frozenset)
+    # the last form lists an identifier twice (concatenated overlapping variable lists)
+    forms = (set, list, tuple, frozenset, lambda q: list(q) + list(q)[:1])
     n = 0
     for k in range(0, len(names) + 1):
         for qv in itertools.combinations(names, k):
@@ -58,13 +59,13 @@ def h_quantify(ctx):
             w.oblige(f'exist({sorted(qv)}).post: exactly the predicate holding where SOME representable values of the quantified variables satisfy u',
                      spec.equiv(w, w.term(r), spec.exists(bits, tu)))
             w.oblige('exist.frame: the caller\'s collection of identifiers is left as it was',
-                     z3.BoolVal(sorted(arg) == sorted(qv) and len(arg) == len(qv)))
+                     z3.BoolVal(sorted(set(arg)) == sorted(qv) and len(arg) in (len(qv), len(qv) + 1)))
             arg = forms[(n + 1) % len(forms)](qv)
             r = ctx.call(fa, c, arg, u, label='forall')
             w.oblige(f'forall({sorted(qv)}).post: exactly where ALL representable values satisfy u',
                      spec.equiv(w, w.term(r), spec.forall(bits, tu)))
             w.oblige('forall.frame: the caller\'s collection of identifiers is left as it was',
-                     z3.BoolVal(sorted(arg) == sorted(qv) and len(arg) == len(qv)))
+                     z3.BoolVal(sorted(set(arg)) == sorted(qv) and len(arg) in (len(qv), len(qv) + 1)))
     w.canary('quantify canary: exist == forall',
              spec.equiv(w, w.term(ctx.call(ex, c, {names[0]}, u)),
                         w.term(ctx.call(fa, c, {names[0]}, u))))
